@@ -29,12 +29,26 @@ func (s ExploreUnion) Interests() []datamodel.PathSegment {
 		}
 	}
 	// Accumulate the whitelist of interesting path segments.
-	// TODO: Dedup?
+	// A segment that several members are interested in is listed once (at its first mention):
+	// the walk explores each listed segment once, and Explore combines what the members say about it.
 	v := []datamodel.PathSegment{}
 	for _, m := range s.Members {
-		v = append(v, m.Interests()...)
+		for _, ps := range m.Interests() {
+			if !containsSegment(v, ps) {
+				v = append(v, ps)
+			}
+		}
 	}
 	return v
+}
+
+func containsSegment(segments []datamodel.PathSegment, ps datamodel.PathSegment) bool {
+	for _, s := range segments {
+		if s.Equals(ps) {
+			return true
+		}
+	}
+	return false
 }
 
 // Explore for a Union selector calls explore for each member selector
